@@ -363,6 +363,26 @@ def _check_main(ctx):
             if after != before or (r1["status"], r1["out"]) != (r2["status"], r2["out"]):
                 ctx.violation("sess-write-by-expression:%s = %s; %s" % (nm, vt, ex), "%s = %s; %s; %s" % (nm, vt, ex, nm), "bindings unchanged: %s; `%s` reads as before (status %s)" % (before, nm, r1["status"]),
                               "%s; `%s` status %s %s" % (after, nm, r2["status"], r2["err"].strip()[:80]), "execute() of the three inputs on one EvalEnvironment")
+    # one input = successive inputs, also when a LATER statement is a flat chain of thousands of operators (whatever the evaluator
+    # does with such a statement — refuse it, or find a way to evaluate it — the statements before it ran exactly once)
+    for nterms in (600, 1500, 3000, 8000):
+        for first, chainop in (("n = n + 1", "+"), ("n = 2*n + 3", "+"), ("n = n + 1; m = n * n", "*"), ("n = n - 1", "-")):
+            chain = (" %s " % chainop).join(["1"] * nterms)
+            ej, es = R.new_env(), R.new_env()
+            for e_ in (ej, es):
+                R.execute("n = 5", env=e_)
+            rj = R.execute(first + "; " + chain, env=ej, timeout=20)
+            rs = None
+            for st_ in first.split("; ") + [chain]:
+                rs = R.execute(st_, env=es, timeout=20)
+                if rs["status"] != 0:
+                    break
+            ctx.count("long-chain:%s;%d%s" % (first, nterms, chainop), bucket="one input = successive inputs, long chains")
+            bj, bs = env_canon(ej, T), env_canon(es, T)
+            if bj != bs or (rj["status"], rj["escaped"]) != (rs["status"], rs["escaped"]):
+                ctx.violation("sess-split:%s; 1 %s 1 %s … (%d terms)" % (first, chainop, chainop, nterms), "n = 5 | %s; 1 %s 1 %s … (%d terms)" % (first, chainop, chainop, nterms),
+                              "as fed one by one: status %s, %s" % (rs["status"], bs), "status %s %s, %s" % (rj["status"], rj["escaped"] or "", bj),
+                              "execute(joined) vs execute(each statement) on one EvalEnvironment")
     if dict(KE.CONSTANTS) != consts0 or list(KF.FUNCTIONS.keys()) != fkeys0 or {k: len(v) for k, v in KF.FUNCTIONS.items()} != flens0 \
             or (sorted(KU.NAME_TO_UNIT), sorted(KU.SYMBOL_TO_UNIT), len(KU.UNITS)) != units0:
         ctx.violation("sess-global-mutation", "the histories above", "CONSTANTS / FUNCTIONS / unit tables unchanged", "changed",
